@@ -63,6 +63,26 @@ async fn verif_replay_hist_read_writes() {
         if out.get_value("bare") != Some(&json!(7)) { bad.push(format!("REPLAY-FAIL [{what}] the later script read the bare name a = {:?}, not 7", out.get_value("bare"))); }
         if out.get_value("got") != Some(&json!(7)) { bad.push(format!("REPLAY-FAIL [{what}] the later script read $get(\"a\") = {:?}, not 7", out.get_value("got"))); }
     }
+    // the default output key `data` (a name that is NOT pushed into enclosing scopes): the workflow starts with data = 10, the client completes the act with
+    // data = 99 -- "the terminal event's outputs contain ... the default 'data' key with the last value written"
+    {
+        let mut workflow = Workflow::new().with_input("data", json!(10))
+            .with_step(|step| step.with_id("step1").with_act(Act::irq(|act| act.with_key("writer")).with_id("writer")));
+        let (proc, scher, emitter, tx, rx) = create_proc_signal::<()>(&mut workflow, &utils::longid());
+        let s = scher.clone();
+        emitter.on_message(move |e| {
+            if e.is_key("writer") && e.inner().is_state(MessageState::Created) {
+                let _ = s.do_action(&Action::new(&e.inner().pid, &e.inner().tid, EventAction::Next, &Vars::new().with("data", 99)));
+            }
+        });
+        let outputs = std::sync::Arc::new(std::sync::Mutex::new(None::<Vars>));
+        let o = outputs.clone();
+        emitter.on_complete(move |e| { *o.lock().unwrap() = Some(e.outputs.clone()); rx.close(); });
+        scher.launch(&proc);
+        let _ = tokio::time::timeout(std::time::Duration::from_secs(10), tx.recv()).await;
+        let out = outputs.lock().unwrap().clone().unwrap_or_default();
+        if out.get_value("data") != Some(&json!(99)) { bad.push(format!("REPLAY-FAIL [default key `data`: start value 10, client write 99] terminal outputs data = {:?}, not the last value written (99)", out.get_value("data"))); }
+    }
     for b in bad.iter().take(12) { println!("{b}"); }
     assert!(bad.is_empty(), "{} reads did not see the last write", bad.len());
 }
